@@ -7,19 +7,20 @@ EXPLANATION = ('Proved: key2idx maps every blade key to its canonical position (
                'algebra\'s signature in order, the cayley payload is algebra.cayley laid out row = left factor, column = right factor in '
                'canonical order with the scalar written 1; inplacereplace writes, for each reported point, exactly the coefficients of that '
                'subject, each with the value sent for its own blade (canonical full layout read by position, every other layout through '
-               'key2idx), only when it changed, and touches no other subject.  encode/walker are recursive generator functions (yield from) '
-               'driven by traitlets observers: outside the VC generator\'s subset -> bounded stand-in: seeded nested subject trees over all '
+               'key2idx), only when it changed, and touches no other subject.  encode/walker (recursive generator functions, interpreted with eager generators) are checked on five concrete subject-tree shapes with opaque multivectors (flat, nested, callables, array-valued, the four storage layouts); '
+               'bounded stand-in on the real widget: seeded nested subject trees over all '
                'multivector layouts decoded the way the front end decodes them; drag updates and dependent callables.  The JavaScript front '
                'end itself is not examined.')
 TRUSTED = ['z3 5.1 (python API)', 'kvc VC generator', 'CPython ast module', 'traitlets/anywidget (widget machinery)']
 ASSUMPTIONS = [K.ASSUME_CPYTHON, 'front-end decoding as described in the property statement (keys placed through key2idx, else canonical order; ndarray payloads are float64 buffers)',
                'traitlets default/observe/validate machinery calls the decorated methods as documented']
-ASSUMED = ['encode, walker (generators): bounded stand-in only', 'GraphWidget traitlet plumbing']
+ASSUMED = ['encode, walker beyond the five tree shapes: bounded stand-in', 'GraphWidget traitlet plumbing', 'generator bodies have no side effects that interleave with their consumers (eager evaluation)']
 
 
 def build(H, tier, seed):
     M.vc_graph_derived(H)
     M.vc_inplacereplace(H)
+    M.vc_encode(H)
 
 
 def standins(tier, seed):
